@@ -24,6 +24,8 @@ int run_value(const Args& a) {
     bool big = a.num("big", 0) != 0;
     uint64_t chains = a.num("chains", 200);
     Report rep(a.str("prop", "C15"), "seq_value", seed);
+    // C09 uses this workload for progress only (overwrites of inline and out-of-line values must return and leave no lock behind)
+    rep.mute_result_oracles(a.num("progress_only", 0) != 0);
     rep.set_rule("grid: value lengths {0..130, 2^k-1, 2^k, 2^k+1 for k<=16 (k<=22 with --big)} x alignments {1,2,4,...,4096} x API {get, scan, iscan, created_value_ptr}; "
                  "typed puts (uint64_t, over-aligned struct with default size/alignment), inline void*/uintptr_t values; random overwrite chains changing length, alignment and kind. "
                  "Each cell: bytes, length, address alignment, created_value_ptr == address returned by get/scan/iscan, and the pointer lies at offset max(align,8) of a live block of "
